@@ -437,7 +437,7 @@ LEVEL_TEXT = ("For every abstract application and state: a line is saved exactly
               "model, C13_topo) and the value-equality stage (C16's vals_eq model, C16_eq_is_key_equality) instantiated "
               "(C12_roundtrip_pipeline_sorted_eq_partial). For applications that ARE port trees of macro-made ports (app_of_tree t, "
               "Save/TreeApp.v: parameter leaves, embedded / enumerated / pointer sub-trees of one component, 'enabled by' a toggle of the "
-              "parent table; names_ok) every stage is the model of the code that implements it (C12_roundtrip_tree_real_partial): the walk "
+              "parent table or a toggle inside the sub-tree ('name/tg', 'name#N/tg'), rSelf ports 'enabled by' a toggle of their table; switches_ok, names_ok) every stage is the model of the code that implements it (C12_roundtrip_tree_real_partial): the walk "
               "with the runtime object (C09, C12_walk_stage), the dispatch of every saved line to the tree with the macros' callbacks "
               "(C04 + C14, C12_dispatch_elem / C12_dispatch_stage), print/scan of the body (C10, C12_body_scans).  Since stage 6 NO premise "
               "about a stage is left (C12_roundtrip_tree_real_lines_partial): every saved line of the class good_line - one value of any "
